@@ -31,9 +31,10 @@ LEVEL_TEXT = ("theorems C05_* proved over R/C for every length N>=1, every sampl
 LEVEL_NOTE = ("floating-point rounding and the FFT algorithm are not modelled (scipy.fft.fft/ifft/fftfreq = exact DFT); "
               "filter_homog is stated for real scale factors (the real part is taken after filtering); "
               "delay_wraps_beyond_window is stated as the model behaves (out[k] = x[k+2N-d] for k < d-N, 0 for "
-              "d-N <= k < N), which corrects the index range written in DESIGN.md; FunctionSignal with several stacked "
-              "filters (product of the response tables) is covered by the correspondence run and the search, the "
-              "theorems reach it for one filter (C05_apply_filters_single); no _partial theorem")
+              "d-N <= k < N), which corrects the index range written in DESIGN.md; FunctionSignal with stacked filters sharing the force_real flag is "
+              "reached by the theorems through C05_apply_filters_stacked (product of the responses); stacks with "
+              "MIXED force_real flags are covered by the correspondence run and the search only; for complex "
+              "factors homogeneity is stated before the real part is taken (C05_filter_homog_complex); no _partial theorem")
 ASSUMPTIONS = ["len(signal.times) == len(signal.values) (C04 invariant) and N >= 2 so that Signal.dt is defined",
                "a vectorised response function acts pointwise on the frequency array"]
 
